@@ -476,6 +476,7 @@ func (req *SrvReq) Flush() {
 func (conn *Conn) FidGet(fidno uint32) *SrvFid {
 	conn.Lock()
 	fid, present := conn.fidpool[fidno]
+	verifPoint("@fid.lookup", conn, fidno, fid)
 	conn.Unlock()
 	if !present {
 		return nil
@@ -488,6 +489,7 @@ func (conn *Conn) FidGet(fidno uint32) *SrvFid {
 	if !pending {
 		fid.refcount++
 	}
+	verifPoint("@fid.get", conn, fid, pending, fid.refcount)
 	fid.Unlock()
 	if pending {
 		return nil
@@ -513,6 +515,7 @@ func (conn *Conn) FidNew(fidno uint32) *SrvFid {
 	fid.pending = true
 	fid.Fconn = conn
 	conn.fidpool[fidno] = fid
+	verifPoint("@fid.new", conn, fid)
 	conn.Unlock()
 
 	return fid
@@ -536,11 +539,13 @@ func (fid *SrvFid) retain() {
 		}
 	}
 
+	verifPoint("fid.retain", fid.Fconn, fid)
 	fid.Lock()
 	if !closed {
 		fid.refcount++
 	}
 	fid.pending = false
+	verifPoint("@fid.retain", fid.Fconn, fid, closed, fid.refcount)
 	fid.Unlock()
 }
 
@@ -548,6 +553,7 @@ func (fid *SrvFid) retain() {
 func (fid *SrvFid) IncRef() {
 	fid.Lock()
 	fid.refcount++
+	verifPoint("@fid.inc", fid.Fconn, fid, fid.refcount)
 	fid.Unlock()
 }
 
@@ -557,6 +563,7 @@ func (fid *SrvFid) DecRef() {
 	fid.Lock()
 	fid.refcount--
 	n := fid.refcount
+	verifPoint("@fid.dec", fid.Fconn, fid, n)
 	fid.Unlock()
 
 	if n > 0 {
@@ -564,7 +571,9 @@ func (fid *SrvFid) DecRef() {
 	}
 
 	conn := fid.Fconn
+	verifPoint("fid.dec.zero", conn, fid)
 	conn.Lock()
+	verifPoint("@fid.unpool", conn, fid, conn.fidpool[fid.fid] == fid)
 	delete(conn.fidpool, fid.fid)
 	conn.Unlock()
 
@@ -577,10 +586,12 @@ func (fid *SrvFid) destroy() {
 	fid.Lock()
 	done := fid.destroyed
 	fid.destroyed = true
+	verifPoint("@fid.destroy", fid.Fconn, fid, done)
 	fid.Unlock()
 	if done {
 		return
 	}
+	verifPoint("fid.destroy.call", fid.Fconn, fid)
 
 	if fop, ok := (fid.Fconn.Srv.ops).(SrvFidOps); ok {
 		fop.FidDestroy(fid)
